@@ -16,7 +16,9 @@ from verif.model.container import Matcher
 
 ID = "C05"
 RULE = ("Hypothesis-generated single-container cases (operator lists x allocation x tick rate) executed in a real "
-        "ResourcePool and compared tick by tick with an exact-rational trace predictor; non-trivial = at least 2 "
+        "ResourcePool and compared tick by tick with an exact-rational trace predictor; when the container is OOM-killed "
+        "its unfinished operators are run again in a second container with another CPU count and allocation and matched the "
+        "same way (segments and operators must be unchanged by the first run); non-trivial = at least 2 "
         "operators or 2 segments AND (OOM after the first tick, or an operator that rounds to zero ticks, or a "
         "growing-memory I/O phase of >= 2 ticks); distinct = sha1 of the canonical case JSON")
 ASSUMPTIONS = [
@@ -25,7 +27,7 @@ ASSUMPTIONS = [
     "an operator whose phases all round to zero ticks occupies one CPU-phase tick of its last segment",
     "cases whose predictor has more than 64 phase-length combinations for one operator, or that need more than the tick cap, are counted as not judged",
 ]
-FLOORS = {"term_oom": 0.03, "term_ok": 0.2, "zero_tick_op": 0.01, "ramp": 0.2, "multi_seg": 0.1, "ambiguous": 0.02}
+FLOORS = {"retried": 0.02, "term_oom": 0.03, "term_ok": 0.2, "zero_tick_op": 0.01, "ramp": 0.2, "multi_seg": 0.1, "ambiguous": 0.02}
 TICK_CAP = {"quick": 3000, "thorough": 12000}
 
 NICE = [0.1, 0.25, 1, 2, 2.5, 5, 10, 15, 20, 30, 35, 37.5, 40, 45, 55, 80]
@@ -109,7 +111,12 @@ def container_case(draw, tier="quick"):
         ram = draw(st.sampled_from([1e-9, 0.001, 19.999 / tps, 20.0 / tps, 20.001 / tps]))
     if not ram > 0:
         ram = 1
-    return {"tps": tps, "cpus": cpus, "ram": ram, "ops": ops}
+    case = {"tps": tps, "cpus": cpus, "ram": ram, "ops": ops}
+    if draw(st.booleans()):
+        # if the container is OOM-killed its unfinished operators are run again in a second container of another size
+        case["retry"] = {"cpus": draw(st.sampled_from(CPUS) | st.integers(1, 64)),
+                         "ram": peak * draw(st.sampled_from([1.0, 2.0])) + draw(st.sampled_from([0.5, 1, 10])) if draw(st.integers(0, 3)) else ram * 2}
+    return case
 
 
 def strategy(tier):
@@ -203,6 +210,41 @@ def run_case(spec, tick_cap=None):
         return out
     out.extra_evals = t
     out.label("term_" + terminal)
+    if terminal == "oom" and spec.get("retry"):
+        # second container for the failed suffix (operators are re-assigned from FAILED), other CPU count and allocation
+        k = sum(1 for o in real if o.state().value == "completed")
+        rest_spec, rest_real = ops[k:], real[k:]
+        c2, r2 = spec["retry"]["cpus"], spec["retry"]["ram"]
+        m2 = Matcher(rest_spec, c2, r2, tps)
+        if not m2.too_ambiguous and m2.max_ticks() <= cap:
+            out.label("retried")
+            try:
+                a2 = Assignment(rest_real, c2, r2, p.priority, 0, "p")
+                res = pool.run_one_tick([], [a2])
+                t2 = 0
+                term2 = None
+                while True:
+                    t2 += 1
+                    cont = pool.active_containers[0] if pool.active_containers else None
+                    mem = cont.get_current_memory_usage() if cont else 0.0
+                    states = tuple(o.state().value for o in rest_real)
+                    if res:
+                        term2 = "oom" if res[0].failed() else "ok"
+                    why = m2.step(mem, states, term2)
+                    if why:
+                        out.problem("retry-trace-mismatch", f"second container (cpus {c2}, ram {r2}) tick {t2}: {why}")
+                        return out
+                    if term2:
+                        break
+                    if t2 > m2.max_ticks() + 2:
+                        out.problem("no-result", f"second container: no result after {t2} ticks")
+                        return out
+                    res = pool.run_one_tick([], [])
+                out.extra_evals += t2
+                out.label("retry_term_" + term2)
+            except Exception as e:
+                out.problem("exception:" + type(e).__name__, f"second container: {type(e).__name__}: {e}")
+                return out
     if terminal == "oom":
         out.label("oom_first_tick" if t == 1 else "oom_later")
     if m.ambiguous:
